@@ -28,7 +28,7 @@ func init() {
 				"pipeline limiting is enabled and passes that semaphore on.",
 			NotCovered: "the bound (current <= stop) and liveness over all schedules: they follow from the extracted transition " +
 				"table and the lock/wake-up discipline by an invariant argument that the checker does not mechanise.",
-			Rules: map[string]string{"C18-R12": "the worker pool of the plain-DNS and DoT servers has no capacity limit, so Submit cannot fail on the accept path and strand a connection with its limiter slot (shared with C01-R9)", "C18-R13": "dnssvc.newListeners passes the configured connection limiter to newListenConfig as it is, for every protocol", "C18-R11": "an accepted connection is handed to its worker or closed on every path; closeListeners closes both listeners unconditionally", "C18-RC": "class rules (error chains, shadowed results, character classes, crossed arguments, pool constructors, array pools, loop completeness, loop-carried buffers, replacing setters, complete clones, Grow arithmetic, pooled-buffer escape, sorted searches, fresh decode targets, per-iteration objects, whole-message copies, codec guards) over the packages this property rests on", "C18-R10": "Shutdown waits for the connections before releasing the worker pool", "C18-R1": "counter transition tables", "C18-R2": "counter state only under counterCond.L",
+			Rules: map[string]string{"C18-R15": "tlsConn.Close closes the wrapped (limiter) connection on every path", "C18-R14": "ServerDNS.Start and ServerTLS.Start count their TCP accept loop in the wait group that Shutdown waits for before it releases the worker pool", "C18-R12": "the worker pool of the plain-DNS and DoT servers has no capacity limit, so Submit cannot fail on the accept path and strand a connection with its limiter slot (shared with C01-R9)", "C18-R13": "dnssvc.newListeners passes the configured connection limiter to newListenConfig as it is, for every protocol", "C18-R11": "an accepted connection is handed to its worker or closed on every path; closeListeners closes both listeners unconditionally", "C18-RC": "class rules (error chains, shadowed results, character classes, crossed arguments, pool constructors, array pools, loop completeness, loop-carried buffers, replacing setters, complete clones, Grow arithmetic, pooled-buffer escape, sorted searches, fresh decode targets, per-iteration objects, whole-message copies, codec guards) over the packages this property rests on", "C18-R10": "Shutdown waits for the connections before releasing the worker pool", "C18-R1": "counter transition tables", "C18-R2": "counter state only under counterCond.L",
 				"C18-R3": "Broadcast after every state change that can release waiters; no Signal",
 				"C18-R4": "slot taken/released exactly once on every accept/close path", "C18-R8": "Close marks the listener closed and wakes all waiting accepts on every path, also when the underlying listener's Close fails",
 				"C18-R7": "limiter wiring: New builds one shared counter with the configured thresholds; Limit hands every listener that shared counter and condition variable; the limiting ListenConfig wraps every stream listener; dnssvc wraps the listen config whenever a limiter is configured; the YAML thresholds reach New unchanged",
@@ -37,6 +37,13 @@ func init() {
 }
 
 func runC18(c *an.Ctx) {
+	// ---- R15: the TLS wrapper's Close always reaches the connection it wraps
+	c.Floor("C18-R15", 1)
+	c18WrapperCloses(c, "C18-R15")
+	// ---- R14: the accept loops of the stream servers are part of what Shutdown waits for
+	if n := c18AcceptLoopCounted(c, "C18-R14"); n < 2 {
+		c.Und("C18-R14", "accept loops of the stream servers", token.NoPos, "only %d `go s.startServeTCP` statements found in the Start methods (expected ServerDNS and ServerTLS)", n)
+	}
 	// ---- R12: the servers' worker pool is unbounded, so that a Submit on the accept path cannot fail under load and
 	// leave an accepted connection (and its limiter slot) open for ever (shared with C01-R9); R13: every listener gets
 	// the configured limiter as it is
@@ -852,4 +859,104 @@ func c18LimiterVerbatim(c *an.Ctx, rule string) (examined int) {
 		}
 	}
 	return examined
+}
+
+// c18AcceptLoopCounted: a server's Shutdown waits for its wait group and then
+// releases the worker pool.  The accept loop itself has to be in that wait
+// group: otherwise a connection that Accept hands out while Shutdown runs is
+// submitted to a released pool, the Submit fails, and nobody closes the
+// connection (its slot in the shared limiter is never released).  Every `go
+// s.startServeTCP(…)` of the stream servers is preceded by s.wg.Add, and the
+// started function defers s.wg.Done.
+func c18AcceptLoopCounted(c *an.Ctx, rule string) (examined int) {
+	for _, fn := range c.Prog.FnsMatching("dnsserver.(*Server") {
+		if fn.Blocks == nil || c.IsTestFile(fn.Pos()) || fn.Name() != "Start" {
+			continue
+		}
+		for _, call := range an.Calls(fn) {
+			g, ok := call.(*ssa.Go)
+			if !ok {
+				continue
+			}
+			callee := an.StaticCallee(g)
+			if callee == nil || callee.Name() != "startServeTCP" {
+				continue
+			}
+			examined++
+			c.Analysed(an.FnKey(fn))
+			added := false
+			for _, cl := range an.Calls(fn) {
+				if strings.HasSuffix(an.CalleeName(cl), "sync.WaitGroup).Add") && an.Dominates(cl, g) {
+					if ap, ok := an.AccessPath(cl.Common().Args[0]); ok && strings.HasSuffix(ap, ".wg") {
+						added = true
+					}
+				}
+			}
+			done := false
+			for _, cl := range an.Calls(callee) {
+				if _, isDefer := cl.(*ssa.Defer); isDefer && strings.HasSuffix(an.CalleeName(cl), "sync.WaitGroup).Done") {
+					done = true
+				}
+			}
+			c.Check(added && done, rule, an.FnKey(fn)+" counts its TCP accept loop in the wait group", g.Pos(),
+				"wg.Add before the goroutine starts, deferred wg.Done in "+an.FnKey(callee),
+				fmt.Sprintf("the accept loop is started without being counted (Add before go: %v, deferred Done in %s: %v): Shutdown does not wait for it, releases the worker pool, and a connection accepted in that window is never closed", added, callee.Name(), done))
+		}
+	}
+	return examined
+}
+
+// c18WrapperCloses: closing a connection wrapper closes what it wraps, on
+// every path.  The limiter's connection sits under the TLS wrapper; a Close
+// that returns early (because the handshake never finished, say) leaves the
+// limiter's connection open and its slot taken for ever.  In tlsConn.Close no
+// return is reachable without a Close call on the wrapped connection.
+func c18WrapperCloses(c *an.Ctx, rule string) {
+	const k = "dnsserver.(*tlsConn).Close"
+	fn := c.Fn(k)
+	key := k + " closes the wrapped connection on every path"
+	if fn == nil {
+		c.Und(rule, key, token.NoPos, "anchor not found")
+		return
+	}
+	c.Analysed(k)
+	closes := func(in ssa.Instruction) bool {
+		call, ok := in.(ssa.CallInstruction)
+		if !ok {
+			return false
+		}
+		if call.Common().IsInvoke() {
+			return call.Common().Method.Name() == "Close"
+		}
+		return strings.HasSuffix(an.CalleeName(call), ".Close")
+	}
+	leak := token.NoPos
+	seen := map[*ssa.BasicBlock]bool{}
+	work := []*ssa.BasicBlock{fn.Blocks[0]}
+	for len(work) > 0 && leak == token.NoPos {
+		b := work[len(work)-1]
+		work = work[:len(work)-1]
+		if seen[b] {
+			continue
+		}
+		seen[b] = true
+		closed := false
+		for _, in := range b.Instrs {
+			if closes(in) {
+				closed = true
+				break
+			}
+			if r, ok := in.(*ssa.Return); ok {
+				leak = r.Pos()
+				if leak == token.NoPos {
+					leak = fn.Pos()
+				}
+			}
+		}
+		if !closed {
+			work = append(work, b.Succs...)
+		}
+	}
+	c.Check(leak == token.NoPos, rule, key, fn.Pos(), "no return is reachable without a Close of the wrapped connection",
+		"the return at "+c.Pos(leak)+" is reached without closing the wrapped connection: the limiter's connection under the TLS wrapper stays open and its slot is never released")
 }
